@@ -115,6 +115,9 @@ func hooksK() Hooks {
 
 // runPlanK executes a workload under the FS tap and then evaluates crash images.
 func runPlanK(def *PropDef, p *Plan, scratch string) *RunResult {
+	if len(p.Tasks) > 0 {
+		return runPlanC06Conc(def, p, scratch)
+	}
 	base := filepath.Join(scratch, fmt.Sprintf("r%d", p.Run))
 	_ = os.RemoveAll(base)
 	defer os.RemoveAll(base)
